@@ -1032,7 +1032,7 @@ def run(ctx):
         'serial helper executions': agg['per_fam'].get('U0', 0) >= 50 and agg['per_fam'].get('E0', 0) >= 20,
         'executions in which every request was served correctly': agg['outcomes'].get('ok', 0) >= agg['executions'] // 2,
     }
-    if not deadline:
+    if not deadline and not viol:
         bad = [k for k, ok in guards.items() if not ok]
         if bad:
             raise HarnessError('vacuity guard(s) failed: %s; classes=%r outcomes=%r' % (bad, cl, agg['outcomes']))
